@@ -161,6 +161,7 @@ fn case(rng: &mut Rng, pool: &Pool, rep: &mut Report, case_no: u64) {
     }
     c.tl = (0, 2);
     let mut plan = gen_with(rng, &c);
+    let orig = plan.clone();
     let ill = if rng.chance(1, 2) { inject(&mut plan, rng) } else { Ill::None };
     rep.evaluations += 1;
     rep.metric(&format!("profile_{}", profile.name()), 1);
@@ -214,13 +215,27 @@ fn case(rng: &mut Rng, pool: &Pool, rep: &mut Report, case_no: u64) {
                     verdict = Some(("message_without_name".into(), format!("the panic of ill-formed registration #{} does not quote the offending name {:?}: {:?}", idx, name, msg)));
                 }
                 rep.metric(match &ill { Ill::DupName(..) => "ill_dup_name_rejected", _ => "ill_unknown_dep_rejected" }, 1);
-                break; // the builder is discarded: nothing is promised about reuse
+                if verdict.is_some() {
+                    break;
+                }
+                // the caller repairs the call (the name / dependency list it meant) and carries on
+                // with the same builder: the rejected call registered nothing, so the repaired one
+                // is an ordinary well-formed registration, and so are all that follow
+                let r2 = catch_unwind(AssertUnwindSafe(|| register(&mut b, &orig.items[idx], &ctx, Some(pool))));
+                if let Err(p) = r2 {
+                    verdict = Some((
+                        "well_formed_call_panicked:after_a_rejected_call".into(),
+                        format!("registration #{} was rejected ({:?}); the repaired call ({}) on the same builder panicked: {}", idx, ill, brief(&orig.items[idx]), payload_str(&*p)),
+                    ));
+                    break;
+                }
+                rep.metric("repaired_calls_accepted", 1);
             }
         }
     }
     rep.metric("builder_calls", calls as i64);
     rep.metric_max("calls_in_one_builder", calls as i64);
-    if verdict.is_none() && !ill_seen {
+    if verdict.is_none() {
         // a well-formed sequence must build
         let r = catch_unwind(AssertUnwindSafe(move || {
             let d = b.build();
@@ -232,7 +247,7 @@ fn case(rng: &mut Rng, pool: &Pool, rep: &mut Report, case_no: u64) {
         // and the same sequence through the chaining API
         if verdict.is_none() && rng.chance(1, 4) {
             let r = catch_unwind(AssertUnwindSafe(|| {
-                let d = instantiate(&plan, &ctx, Some(pool)).build();
+                let d = instantiate(&orig, &ctx, Some(pool)).build();
                 drop(d);
             }));
             if let Err(p) = r {
